@@ -258,12 +258,51 @@ package consensus
 //@   abstract
 //@ func (State).InputSigHash
 //@   abstract
+//@   prop C12 C03
+//@   hash-family sig
+//@   ghost k int
+//@   requires @resolutions-non-nil forall j in 0..len(txn.FileContractResolutions) :: !isnil(txn.FileContractResolutions[j].Resolution)
+//@   preimage prefix "sia/sig/input|" u8 2
+//@   preimage covers txn.SiacoinInputs[k].Parent.ID when 0 <= k && k < len(txn.SiacoinInputs)
+//@   preimage covers txn.SiacoinOutputs[k] when 0 <= k && k < len(txn.SiacoinOutputs)
+//@   preimage covers txn.SiafundInputs[k].Parent.ID when 0 <= k && k < len(txn.SiafundInputs)
+//@   preimage covers txn.SiafundInputs[k].ClaimAddress when 0 <= k && k < len(txn.SiafundInputs)
+//@   preimage covers txn.SiafundOutputs[k] when 0 <= k && k < len(txn.SiafundOutputs)
+//@   preimage covers txn.FileContracts[k] except RenterSignature HostSignature when 0 <= k && k < len(txn.FileContracts)
+//@   preimage covers txn.FileContractRevisions[k].Parent.ID when 0 <= k && k < len(txn.FileContractRevisions)
+//@   preimage covers txn.FileContractRevisions[k].Revision except RenterSignature HostSignature when 0 <= k && k < len(txn.FileContractRevisions)
+//@   preimage covers txn.FileContractResolutions[k].Parent.ID when 0 <= k && k < len(txn.FileContractResolutions)
+//@   preimage covers txn.Attestations[k] when 0 <= k && k < len(txn.Attestations)
+//@   preimage covers txn.ArbitraryData
+//@   preimage covers txn.NewFoundationAddress
+//@   preimage covers txn.MinerFee
+//@   preimage excludes txn.SiacoinInputs[k].SatisfiedPolicy when 0 <= k && k < len(txn.SiacoinInputs)
+//@   preimage excludes txn.SiafundInputs[k].SatisfiedPolicy when 0 <= k && k < len(txn.SiafundInputs)
 //@ func (State).ContractSigHash
 //@   abstract
+//@   prop C12 C03
+//@   hash-family sig
+//@   preimage prefix "sia/sig/filecontract|" u8 2
+//@   preimage covers fc except RenterSignature HostSignature
+//@   preimage excludes fc.RenterSignature
+//@   preimage excludes fc.HostSignature
 //@ func (State).RenewalSigHash
 //@   abstract
+//@   prop C12 C03
+//@   hash-family sig
+//@   preimage prefix "sia/sig/filecontractrenewal|" u8 2
+//@   preimage covers fcr except RenterSignature HostSignature NewContract.RenterSignature NewContract.HostSignature
+//@   preimage excludes fcr.RenterSignature
+//@   preimage excludes fcr.HostSignature
+//@   preimage excludes fcr.NewContract.RenterSignature
+//@   preimage excludes fcr.NewContract.HostSignature
 //@ func (State).AttestationSigHash
 //@   abstract
+//@   prop C12 C03
+//@   hash-family sig
+//@   preimage prefix "sia/sig/attestation|" u8 2
+//@   preimage covers a except Signature
+//@   preimage excludes a.Signature
 //@ func (State).StorageProofLeafHash
 //@   abstract
 //@ func (State).StorageProofLeafIndex
@@ -575,3 +614,107 @@ package consensus
 //@   ensures @BP-payout-equals-reward-plus-fees result == nil ==> sumSCO(b.MinerPayouts, len(b.MinerPayouts)) == reward + sumTxnFees(b.Transactions, len(b.Transactions)) + (b.V2 != nil ? sumV2Fees(b.V2.Transactions, len(b.V2.Transactions)) : 0)
 //@   ensures @BP-nonzero result == nil && 0 <= k && k < len(b.MinerPayouts) ==> types.u128(b.MinerPayouts[k].Value) != 0
 //@   ensures @BP-single-v2-payout result == nil && b.V2 != nil ==> len(b.MinerPayouts) == 1
+
+// ------------------------------------------------------------ merkle.go: accumulator leaves (C04, C12, C18)
+// Every field of an element is bound by its leaf: the element hash covers the ID and the
+// content under a kind-specific distinguisher, and the leaf hash covers the element hash, the
+// leaf index and the spent flag.  The multiproof code in package types computes element hashes
+// with its own copies of these functions: they must produce the same digests.
+
+//@ func chainIndexLeaf
+//@   prop C04 C12 C18
+//@   hash-family leaf of result.elementHash
+//@   preimage of result.elementHash prefix "sia/leaf/chainindex|"
+//@   preimage of result.elementHash covers e.ID
+//@   preimage of result.elementHash covers e.ChainIndex
+//@   preimage of result.elementHash excludes e.StateElement
+//@   ensures @position deref(result.StateElement) == e.StateElement && !result.spent
+//@   ensures @same-as-multiproof result.elementHash == types.chainIndexLeaf(e).ElementHash
+
+//@ func siacoinLeaf
+//@   prop C04 C12 C18
+//@   hash-family leaf of result.elementHash
+//@   preimage of result.elementHash prefix "sia/leaf/siacoin|"
+//@   preimage of result.elementHash covers e.ID
+//@   preimage of result.elementHash covers e.SiacoinOutput
+//@   preimage of result.elementHash covers e.MaturityHeight
+//@   preimage of result.elementHash excludes e.StateElement
+//@   ensures @position deref(result.StateElement) == e.StateElement && result.spent == spent
+//@   ensures @same-as-multiproof result.elementHash == types.siacoinLeaf(e).ElementHash
+
+//@ func siafundLeaf
+//@   prop C04 C12 C18
+//@   hash-family leaf of result.elementHash
+//@   preimage of result.elementHash prefix "sia/leaf/siafund|"
+//@   preimage of result.elementHash covers e.ID
+//@   preimage of result.elementHash covers e.SiafundOutput
+//@   preimage of result.elementHash covers e.ClaimStart
+//@   preimage of result.elementHash excludes e.StateElement
+//@   ensures @position deref(result.StateElement) == e.StateElement && result.spent == spent
+//@   ensures @same-as-multiproof result.elementHash == types.siafundLeaf(e).ElementHash
+
+//@ func fileContractLeaf
+//@   prop C04 C12
+//@   hash-family leaf of result.elementHash
+//@   preimage of result.elementHash prefix "sia/leaf/filecontract|"
+//@   preimage of result.elementHash covers e.ID
+//@   preimage of result.elementHash covers e.FileContract when isnil(rev)
+//@   preimage of result.elementHash covers deref(rev) when !isnil(rev)
+//@   preimage of result.elementHash excludes e.StateElement
+//@   ensures @position deref(result.StateElement) == e.StateElement && result.spent == spent
+
+//@ func v2FileContractLeaf
+//@   prop C04 C12 C18
+//@   hash-family leaf of result.elementHash
+//@   preimage of result.elementHash prefix "sia/leaf/v2filecontract|"
+//@   preimage of result.elementHash covers e.ID
+//@   preimage of result.elementHash covers e.V2FileContract when isnil(rev)
+//@   preimage of result.elementHash covers deref(rev) when !isnil(rev)
+//@   preimage of result.elementHash excludes e.StateElement
+//@   ensures @position deref(result.StateElement) == e.StateElement && result.spent == spent
+//@   ensures @same-as-multiproof isnil(rev) ==> result.elementHash == types.v2FileContractLeaf(e).ElementHash
+
+//@ func attestationLeaf
+//@   prop C04 C12
+//@   hash-family leaf of result.elementHash
+//@   preimage of result.elementHash prefix "sia/leaf/attestation|"
+//@   preimage of result.elementHash covers e.ID
+//@   preimage of result.elementHash covers e.Attestation
+//@   preimage of result.elementHash excludes e.StateElement
+//@   ensures @position deref(result.StateElement) == e.StateElement && !result.spent
+
+//@ func (elementLeaf).hash
+//@   abstract
+//@   prop C04 C12
+//@   concrete types.HashBytes
+//@   requires !isnil(l.StateElement)
+//@   preimage covers l.elementHash
+//@   preimage covers l.StateElement.LeafIndex
+//@   preimage covers l.spent
+//@   preimage excludes l.StateElement.MerkleProof
+
+// mpath: the root obtained by hashing a leaf up a Merkle path; bit j of the index says on which
+// side the j-th sibling sits.
+//@ spec rec mpath(leaf types.Hash256, idx int, proof []types.Hash256, n int) types.Hash256 = n <= 0 ? leaf : ((idx / pow2(n-1)) % 2 == 0 ? blake2b.SumPair(mpath(leaf, idx, proof, n-1), proof[n-1]) : blake2b.SumPair(proof[n-1], mpath(leaf, idx, proof, n-1)))
+
+//@ func proofRoot
+//@   prop C04 C05
+//@   invariant loop#1 @path root == mpath(leafHash, leafIndex, proof, $n)
+//@   ensures @merkle-path result == mpath(leafHash, leafIndex, proof, len(proof))
+
+//@ func (elementLeaf).proofRoot
+//@   prop C04
+//@   requires !isnil(l.StateElement)
+//@   ensures result == mpath(l.hash(), l.StateElement.LeafIndex, l.StateElement.MerkleProof, len(l.StateElement.MerkleProof))
+
+//@ func (*ElementAccumulator).hasTreeAtHeight
+//@   prop C04 C10
+//@   requires height >= 0
+//@   ensures @only-below-64 result ==> height < 64
+//@   ensures @bit result <==> height < 64 && (acc.NumLeaves / pow2(height)) % 2 == 1
+
+//@ func (*ElementAccumulator).containsLeaf
+//@   prop C04 C10
+//@   requires !isnil(l.StateElement)
+//@   let h = len(l.StateElement.MerkleProof)
+//@   ensures @membership-is-root-equality result <==> h < 64 && (acc.NumLeaves / pow2(h)) % 2 == 1 && acc.Trees[h] == mpath(l.hash(), l.StateElement.LeafIndex, l.StateElement.MerkleProof, h)
